@@ -118,7 +118,7 @@ def stackMatch (c : Cfg) (gis : List GiEntry) (toks : List String) (isDir : Bool
 def shouldSkipDir (c : Cfg) (gis : List GiEntry) (p : Path) : Bool :=
   if c.dirsToSkip p then true
   else if c.ignoreSubDirs && !c.paths.contains p then true
-  else if c.useGitignore && stackMatch c gis (tokens p) true then true
+  else if c.useGitignore && p != [] && stackMatch c gis (tokens p) true then true   -- the scan root is never ignored
   else if (match c.regex with | some r => r p | none => false) then true
   else if (match c.glob with | some g => g p | none => false) then true
   else false
